@@ -7,7 +7,7 @@
 (*                                                                         *)
 (* One behaviour = one call of build_optimized_tables on a short list of   *)
 (* raw tables T[perm][entity][point][dof] (one per modified terminal),     *)
-(* followed by one access request.  One action per pipeline step, written  *)
+(* followed by the access requests.  One action per pipeline step, written *)
 (* the way the code does it (TableSpace.tla holds the operators):          *)
 (*   Clamp           clamp_table_small_numbers with the CONFIGURED         *)
 (*                   tolerances (options table_rtol / table_atol)          *)
@@ -79,7 +79,7 @@ VARIABLES gen,       \* the base pattern chosen by Init
           ttype, isperm,
           reg,       \* register of existing tables: sequence of [name, tbl]
           out,       \* finished UniqueTableReferenceT projections
-          req, got   \* access request <<table, p, e, q>> and what the index rule reads (slot, the row of dof values)
+          req, got   \* the access requests <<table, p, e, q>> and what the index rule reads for each (slot, row of dof values)
 vars == <<gen, raws, ctolName, i, pc, tbl, clamped, ttype, isperm, reg, out, req, got>>
 
 ---------------------------------------------------------------------------
@@ -111,7 +111,7 @@ Init ==
        /\ BaseOK(b, Dims)
        /\ gen = b /\ ctolName = tn /\ raws = <<>>
        /\ i = 1 /\ pc = "start" /\ tbl = <<>> /\ clamped = <<>> /\ ttype = "none" /\ isperm = FALSE
-       /\ reg = <<>> /\ out = <<>> /\ req = <<>> /\ got = <<>>
+       /\ reg = <<>> /\ out = <<>> /\ req = {} /\ got = <<>>
 
 \* stage order; the "perm_first" deviation decides is_permuted before the piecewise / uniform reductions
 AfterClassify == IF Bug = "perm_first" THEN "redperm" ELSE "redpts"
@@ -192,20 +192,21 @@ DedupeHit == pc = "dedupe" /\ DedupeTo(TRUE)
 DedupeNew == pc = "dedupe" /\ DedupeTo(FALSE)
 Dedupe == DedupeHit \/ DedupeNew
 
-\* the generators' index rule; every admissible request (permutation, entity, point; all dofs at once) on the
-\* table processed last (quick) / on every table
+\* the generators' index rule, for EVERY admissible request <<table, permutation, entity, point>> at once (all dofs
+\* of the row): one step, so that the requests do not multiply the state space
+Requests ==
+  (IF Universe = "quick" THEN {Len(raws)} ELSE 1..Len(raws)) \X (1..Dims[1]) \X (1..Dims[2]) \X (1..Dims[3])
 Access ==
   /\ pc = "access"
-  /\ \E t \in (IF Universe = "quick" THEN {Len(raws)} ELSE 1..Len(raws)),
-        p \in 1..Dims[1], e \in 1..Dims[2], q \in 1..Dims[3] :
-       LET res == out[t]
-           s == Slot(res, p, e, q, 1, Bug)
-           ok == InShape(res.final, s)
-       IN /\ req' = <<t, p, e, q>>
-          /\ got' = [slot |-> s, inshape |-> ok,
-                     row |-> [d \in 1..Dims[4] |->
-                               IF res.ttype = "zeros" THEN Zero ELSE IF res.ttype = "ones" THEN One
-                               ELSE IF ok THEN At(res.final, <<s[1], s[2], s[3], d>>) ELSE Zero]]
+  /\ req' = Requests
+  /\ got' = [r \in Requests |->
+              LET res == out[r[1]]
+                  s == Slot(res, r[2], r[3], r[4], 1, Bug)
+                  ok == InShape(res.final, s)
+              IN [slot |-> s, inshape |-> ok,
+                  row |-> [d \in 1..Dims[4] |->
+                            IF res.ttype = "zeros" THEN Zero ELSE IF res.ttype = "ones" THEN One
+                            ELSE IF ok THEN At(res.final, <<s[1], s[2], s[3], d>>) ELSE Zero]]]
   /\ pc' = "done"
   /\ UNCHANGED <<gen, raws, ctolName, i, tbl, clamped, ttype, isperm, reg, out>>
 
@@ -230,15 +231,17 @@ ClampSound ==
 TypeSound == (pc = AfterClassify /\ ttype # "none") => Means(ttype, clamped, ClassTol)
 
 \* the index the code forms is inside the reduced shape
-ShapeConsistent == pc = "done" => got.inshape
+ShapeConsistent == pc = "done" => \A r \in req : got[r].inshape
 
 \* the value read through the reduced table is the clamped raw value up to the tolerance-sized substitutions that
 \* really happened (exactly equal when none did)
 AccessFaithful ==
-  (pc = "done" /\ got.inshape) =>
-    LET res == out[req[1]]
-    IN \A d \in 1..Dims[4] :
-         Within(got.row[d], At(res.clamped, <<req[2], req[3], req[4], d>>), Budget(res, res.clamped), ClassTol)
+  pc = "done" =>
+    \A r \in req :
+      got[r].inshape =>
+        LET res == out[r[1]]
+        IN \A d \in 1..Dims[4] :
+             Within(got[r].row[d], At(res.clamped, <<r[2], r[3], r[4], d>>), Budget(res, res.clamped), ClassTol)
 
 \* dedupe: the table used is the FIRST existing one of the same shape within tolerance, else the table itself
 JustDeduped == pc \in {"clamp", "access"} /\ Len(out) >= 1
